@@ -27,11 +27,13 @@ typedef struct CertSpec {
 	int key_usage;          /* bits, 0 = no keyUsage ext */
 	int64_t not_before, not_after;
 	int eku;                /* 0: no extendedKeyUsage, 1: serverAuth, 2: clientAuth */
+	int v1;                 /* 1: an X.509 v1 certificate (no version field, no extensions) */
+	int pad;                /* > 0: a subjectAltName extension with this many characters of DNS names (size knob) */
 } CertSpec;
 
 typedef struct Ident {      /* a key and its certificate */
 	SM2_KEY key;
-	uint8_t cert[800]; size_t certlen;
+	uint8_t cert[2100]; size_t certlen;
 	uint8_t name[256]; size_t namelen;
 } Ident;
 
@@ -55,6 +57,7 @@ typedef struct CredOpts {          /* one deliberate defect in what the prover p
 	int foreign_root;              /* 1: chain hangs under another key with the trusted root's name; 2: other name */
 	int root_in_chain;             /* the (foreign) root certificate itself is appended to the chain the prover sends */
 	int issuer_is_leaf;            /* leaf issued by an end-entity certificate inserted as "CA" */
+	int issuer_below_v1;           /* leaf <- self-made v3 CA (pathLen 0) <- X.509 v1 end-entity certificate <- genuine issuer */
 	int enc_foreign;               /* TLCP: encryption certificate issued by a foreign CA */
 } CredOpts;
 void credopts_init(CredOpts *o, int prover);
@@ -65,7 +68,8 @@ int creds_issue(const CertSpec *spec, const SM2_KEY *subject_key,
 int creds_make_name(const char *cn, uint8_t *name, size_t *namelen);
 int creds_build(CredSet *cs, int depth, int tlcp);
 const CredSet *creds_get(int depth, int tlcp);          /* cached, honest */
-const CredSet *creds_get_eku(int depth, int tlcp);      /* same shape; leaves carry extendedKeyUsage serverAuth / clientAuth */
+const CredSet *creds_get_eku(int depth, int tlcp);
+const CredSet *creds_get_max(int depth, int tlcp, int delta);   /* both chains are exactly TLS_MAX_CERTIFICATES_SIZE - delta bytes; NULL if that size cannot be hit */      /* same shape; leaves carry extendedKeyUsage serverAuth / clientAuth */
 extern int g_junk_sig_node, g_junk_sig_form, g_junk_sig_fired; extern uint64_t g_junk_sig_seed;   /* creds.c: prover whose signatures are junk */
 size_t creds_extra_roots(int n, uint8_t *out, size_t cap);   /* n unrelated self-signed roots (cached) */
 void creds_chain(const CredSet *cs, int server, uint8_t *out, size_t *outlen);
@@ -147,6 +151,7 @@ typedef struct Endpoint {
 	int node, task;
 	Conn *c;
 	TLS_CTX ctx;
+	struct Endpoint *ctx_of;        /* set: this endpoint's connection was initialised from that endpoint's ctx */
 	TLS_CONNECT *conn;
 	const Plan *plan;
 	int hs_ret, hs_returned;
@@ -170,9 +175,12 @@ typedef struct Endpoint {
 	struct { int rec; uint64_t start; uint32_t len; } recmap[MAX_REC];
 	int nrecmap;
 	int refused_sends;             /* probe sends attempted while received data was still buffered */
+	int send_retries;              /* writes repeated after a send that failed on the plan's single entropy failure */
+	uint64_t draws_at_done, draws_at_data_end;   /* entropy draws of this endpoint's node when the handshake returned / when the last round ended */
 } Endpoint;
 
 extern Endpoint g_ep[2 * NET_MAX_CONN];
+int ep_setup_same_ctx(Endpoint *ep, Endpoint *first, Conn *c);
 
 uint8_t payload_byte(int dir, uint64_t i);
 void payload_fill(int dir, uint64_t off, uint8_t *buf, size_t n);
@@ -236,6 +244,7 @@ typedef struct HonestOut {
 	uint64_t sent_len[2];
 	size_t rd_at_done[2];           /* per endpoint side */
 	int nrecmap[2];                 /* per direction */
+	uint64_t draws_at_done[2], draws_at_data_end[2];   /* per side */
 	struct { int rec; uint64_t start; uint32_t len; } recmap[2][MAX_REC];
 	int finished[2];
 	int step_capped, quiesced;
